@@ -37,7 +37,8 @@ type params struct {
 	Fault  string `json:"fault,omitempty"` // reset | stall-cancel
 	K      int    `json:"k,omitempty"`
 	Object string `json:"object,omitempty"`
-	V6     bool   `json:"v6,omitempty"` // client cases: the live connection is to an IPv6 endpoint
+	V6     bool   `json:"v6,omitempty"`    // client cases: the live connection is to an IPv6 endpoint
+	Trail  int    `json:"trail,omitempty"` // client cases: the path message is not cleanly terminated: 1 a stray integer follows the path, 2 the message ends in a partial frame and the server hangs up
 }
 
 const sandboxParent = "/var/tmp"
@@ -254,6 +255,13 @@ func runClient(s *kernel.Sim, c *scen.Case, p params) {
 				inFS = true
 				m := message.NewMessageForStream(st)
 				_ = m.PutString(sctx, pc.path)
+				switch p.Trail {
+				case 1: // something follows the path inside the same message
+					_ = m.PutInt(sctx, 7)
+				case 2: // the message is never finished: a partial frame, then the connection goes away
+					_ = m.FlushFrame(sctx, false)
+					return "", "", fmt.Errorf("scripted server hangs up inside its path message")
+				}
 				if err := m.FinishMessage(sctx); err != nil {
 					return "", "", err
 				}
@@ -320,6 +328,12 @@ func runClient(s *kernel.Sim, c *scen.Case, p params) {
 	// whatever was created is gone once the call has returned, however it returned
 	if diff := diffSnap(before, after); diff != "" {
 		s.Violate("filesystem-changed-after-exchange", sig, fmt.Sprintf("%s: filesystem differs after the client returned: %s", desc, diff))
+		return
+	}
+	if p.Trail > 0 {
+		// a path message that is not cleanly terminated: the client may refuse it in any way it likes;
+		// what is judged is that nothing stays behind (above)
+		s.Probe("unterminated-path-message-left-nothing")
 		return
 	}
 	if !pc.acceptable {
@@ -417,7 +431,7 @@ func diffSnap(a, b []string) string {
 	return strings.Join(d, "; ")
 }
 
-var objects = []string{"proper-0700-dir", "nothing", "regular-file", "symlink-to-dir", "dir-0755", "dir-0777", "dir-with-subdir", "dir-0700-then-replaced-by-symlink", "dir-0700-owned-by-unmapped-uid", "proper-0700-dir-other-group"}
+var objects = []string{"proper-0700-dir", "nothing", "regular-file", "symlink-to-dir", "dir-0755", "dir-0777", "dir-with-subdir", "dir-0700-then-replaced-by-symlink", "dir-0700-owned-by-unmapped-uid", "proper-0700-dir-other-group", "unix-socket-0700", "fifo-0700"}
 
 func runServer(s *kernel.Sim, c *scen.Case, p params) {
 	t := s.T
@@ -470,6 +484,16 @@ func runServer(s *kernel.Sim, c *scen.Case, p params) {
 					_ = os.Mkdir(path, 0o700)
 					_ = os.Remove(path)
 					_ = os.Symlink(target, path)
+				case "unix-socket-0700":
+					// not a directory, although its type bits share one with a directory's (S_IFSOCK = 0140000)
+					if fd, err := syscall.Socket(syscall.AF_UNIX, syscall.SOCK_STREAM, 0); err == nil {
+						_ = syscall.Bind(fd, &syscall.SockaddrUnix{Name: path})
+						_ = syscall.Close(fd)
+						_ = os.Chmod(path, 0o700)
+					}
+				case "fifo-0700":
+					_ = syscall.Mkfifo(path, 0o700)
+					_ = os.Chmod(path, 0o700)
 				case "proper-0700-dir-other-group":
 					// the client's own 0700 directory, its group changed to another one the client may use
 					// (setgid base directory, supplementary group): still the client's, and only the client's
@@ -593,6 +617,14 @@ func gen(g *scen.Gen) {
 	for i := 0; i < npaths; i++ {
 		if !emit(params{Kind: "client", Path: i}) || !emit(params{Kind: "client", Path: i, V6: true}) {
 			return
+		}
+	}
+	// acceptable (and a few other) paths in a message that is not cleanly terminated
+	for _, pi := range []int{0, 1, 2, 11, 13, 21} {
+		for tr := 1; tr <= 2; tr++ {
+			if !emit(params{Kind: "client", Path: pi, Trail: tr}) {
+				return
+			}
 		}
 	}
 	for _, o := range objects {
